@@ -260,7 +260,10 @@ def _len(interp, v: Any) -> Any:
         if v.kind == "bytes:frame":
             if isinstance(v.attrs.get("size"), int):
                 return v.attrs["size"]
-            return Unknown(("frame-len", v.uid), "length of a serialised frame")
+            c = _msg_content3(interp, v.attrs["msg"])
+            if c is False:
+                return 0
+            return Unknown(("frame-len", v.uid), "length of a serialised frame", positive=c is True)
         if v.kind == "bytes:cat":
             total = 0
             for p in v.attrs["parts"]:
@@ -1189,8 +1192,13 @@ def _msg_has_content(m: Msg) -> bool:
 
 def _msg_content3(interp, m: Msg) -> bool | None:
     """proto3: a message serialises to zero bytes iff nothing is set.  True / False / None (depends on a string that may be empty)."""
+    from .freeze import ONEOF_FIELDS
+
+    oneof = ONEOF_FIELDS.get(m.mtype, ())
     maybe = False
     for k, v in m.fields.items():
+        if k in oneof and k in m.present:
+            return True  # members of a oneof have presence: written even when empty
         if isinstance(v, AList):
             if v.items:
                 return True
@@ -1537,7 +1545,8 @@ def getattr_ext(interp, obj: Any, name: str) -> Any:
     if isinstance(obj, AList):
         import collections
 
-        _known({"list": list, "deque": collections.deque, "bytearray": bytearray}.get(obj.kind, list))
+        if name not in ("add", "MergeFrom"):  # protobuf's repeated containers are modelled as lists
+            _known({"list": list, "deque": collections.deque, "bytearray": bytearray}.get(obj.kind, list))
         return ExtMethod(obj, "list", name)
     if isinstance(obj, ADict):
         import collections
@@ -1799,6 +1808,8 @@ def msg_getattr(interp, m: Msg, name: str) -> Any:
     if fd.repeated:
         if name not in m.fields:
             m.fields[name] = AList([])
+        if fd.is_message and m.fields[name].elem is None:
+            m.fields[name].elem = fd.type_name
         return m.fields[name]
     if fd.is_message:
         cur = m.fields.get(name)
@@ -2084,6 +2095,19 @@ def call_method(interp, em: ExtMethod, args: list, kwargs: dict) -> Any:
 
 def _list_method(interp, lst: AList, name: str, args: list, kwargs: dict) -> Any:
     items = lst.items
+    if lst.elem is not None and name in ("append", "extend", "insert"):
+        # protobuf's repeated composite containers store copies of the messages handed to them
+        def _cp(x: Any) -> Any:
+            if not (isinstance(x, Msg) and x.mtype == lst.elem):
+                raise interp.exc("TypeError", f"repeated field of {lst.elem} cannot hold {x!r}")
+            return copy_msg(interp, x)
+
+        if name == "append":
+            args = [_cp(args[0])]
+        elif name == "insert":
+            args = [args[0], _cp(args[1])]
+        else:
+            args = [AList([_cp(x) for x in interp.drain(args[0])])]
     if name == "append":
         _mut(interp, lst, "append")
         items.append(args[0])
@@ -2150,8 +2174,13 @@ def _list_method(interp, lst: AList, name: str, args: list, kwargs: dict) -> Any
         return lst.maxlen
     if name == "__len__":
         return len(items)
-    if name == "add":  # RepeatedCompositeContainer.add
-        raise interp.unsupported("repeated field .add()")
+    if name == "add":  # RepeatedCompositeContainer.add(**fields): appends a new element and returns it
+        if lst.elem is None:
+            raise interp.exc("AttributeError", "'list' object has no attribute 'add'")
+        _mut(interp, lst, "append")
+        new = new_msg(interp, lst.elem, [], kwargs)
+        items.append(new)
+        return new
     raise interp.exc("AttributeError", f"'{lst.kind}' object has no attribute '{name}'")
 
 
